@@ -315,7 +315,13 @@ func chainStress(k *mon.Case, readers, writerOps int) {
 		if depth < len(branch) && (depth == 0 || r.Intn(2) == 0) {
 			b := branch[depth]
 			c0 := clk.now()
-			err := n.Exec.VerifProcessValidated(context.Background(), node.CloneBlock(b), false, false)
+			// one block in three is applied the way the node's own generated blocks are (publish to
+			// the network from a goroutine of processValidated)
+			publish := r.Intn(3) == 0
+			if publish {
+				k.Count("writer_blocks_applied_with_publish", 1)
+			}
+			err := n.Exec.VerifProcessValidated(context.Background(), node.CloneBlock(b), publish, false)
 			c1 := clk.now()
 			if err != nil {
 				k.Inconclusive("writer-apply:" + err.Error())
@@ -709,7 +715,7 @@ func handlerStress(k *mon.Case) {
 func main() {
 	mon.Main(mon.Options{
 		Property: "C20", Level: "exploration",
-		Rule: "-race build; per repetition: (chain) one writer applying/removing blocks through the real Executer while N readers mix LastBlock/GetLastBlock/bulk lookups by ids, heights, ranges and transaction ids below the stable height (expected sets exact), tip history checked for linearizability with porcupine against a stack-top register; (pool) 8 goroutines Add/Has/Get/Size/Select/Upgrade then Cleanup; (emitter) 4 publishers, permanent and transient subscribers; (staged) goroutines sharing one diffdb.Database through prefix views; (handlers) sync RPC handlers against a writer. Each sub-workload runs under the deadlock rule (two identical goroutine dumps). Race reports with a frame in the listed packages are violations, deduplicated by innermost function pair. non-trivial+distinct = (sub-workload, size bucket)",
+		Rule: "-race build; per repetition: (chain) one writer applying/removing blocks through the real Executer while N readers mix LastBlock/GetLastBlock/bulk lookups by ids, heights, ranges and transaction ids below the stable height (expected sets exact), tip history checked for linearizability with porcupine against a stack-top register; (pool) 8 goroutines Add/Has/Get/Size/Select/Upgrade then Cleanup; (emitter) 4 publishers, permanent and transient subscribers; (staged) goroutines sharing one diffdb.Database through prefix views; (handlers) sync RPC handlers against a writer; (sync) a real fast sync between two libp2p-connected nodes while two goroutines poll Executer.Syncing() and the tip as the generator and the system endpoint do. Each sub-workload runs under the deadlock rule (two identical goroutine dumps). Race reports with a frame in the listed packages are violations, deduplicated by innermost function pair. non-trivial+distinct = (sub-workload, size bucket)",
 		Assumptions: []string{
 			"race detector and checkptr see only the interleavings the scheduler produced in these repetitions",
 			"bulk-lookup expectations are judged for items below the stable height only (exact expected set while the writer works above it)",
@@ -726,5 +732,6 @@ func main() {
 		c.Cases("emitter", reps, func(k *mon.Case) { k.Watch("emitter-stress", 60*time.Second, func() { emitterStress(k) }) })
 		c.Cases("staged", reps, func(k *mon.Case) { k.Watch("staged-stress", 60*time.Second, func() { stagedStoreStress(k) }) })
 		c.Cases("handlers", c.N(24, 300), func(k *mon.Case) { k.Watch("handler-stress", 180*time.Second, func() { handlerStress(k) }) })
+		c.Cases("sync", c.N(24, 300), func(k *mon.Case) { k.Watch("sync-status", 180*time.Second, func() { syncFlagStress(k, c.Shard()) }) })
 	})
 }
